@@ -604,3 +604,4 @@ func refRange(keys []string, start, end string) []string {
 }
 
 type protoComparison = proto.KeyComparisonType
+
